@@ -1,7 +1,8 @@
 (* C18 - property theorems only.  Model: C18/Model.v, tied to create_graph.py / graph_searches.py / networkx by
    exact correspondence (which also checks, inside Coq, that every computed closure / relaxation is stable). *)
 From Coq Require Import String List Bool ZArith.
-From PP Require Import C18.Model C18.Proofs.
+From PP Require Import C18.Model C18.Proofs C18.Islands.
+From PP Require C04.Model C04.ProofsConn.
 Import ListNotations.
 Open Scope string_scope.
 Open Scope Z_scope.
@@ -70,7 +71,27 @@ Theorem graph_components_are_reachability_classes : forall es k S0 v,
 Proof. exact closure_is_reachability. Qed.
 Print Assumptions graph_components_are_reachability_classes.
 
-(* unsupplied_junctions = nodes not reachable from an in-service ext grid junction *)
+(* the graph agrees with the SOLVER: when every graph edge is an in-service, undirected, non flow-return-connect branch
+   of the pit between the same junctions (pos = junction -> pit position, injective), a junction is reachable in the
+   graph from the supplied junctions iff the solver's connectivity search (C04.Model.search_hyd, proved there to be
+   C04's HReach) marks its node *)
+Theorem graph_components_eq_islands : forall es ns seeds pos n nact slack,
+  (forall x y, In x ns -> In y ns -> pos x = pos y -> x = y) -> (forall x, In x ns -> (pos x < n)%nat) ->
+  (forall e, In e es -> In (e_u e) ns /\ In (e_v e) ns) -> (forall s, In s seeds -> In s ns) ->
+  (forall x, In x ns -> PP.C04.Model.nthb nact (pos x) = true) ->
+  (forall i, PP.C04.Model.nthb slack i = true <-> exists s, In s seeds /\ pos s = i) ->
+  forall v, In v ns ->
+    (Reach es seeds v <->
+     PP.C04.Model.nthb (fst (PP.C04.Model.search_hyd n (bs es pos) (map PP.C04.Model.b_active (bs es pos)) nact slack)) (pos v) = true).
+Proof.
+  intros es ns seeds pos n nact slack H1 H2 H3 H4 H5 H6 v Hv.
+  rewrite (components_eq_islands es ns seeds pos n nact slack H1 H2 H3 H4 H5 H6 v Hv).
+  rewrite PP.C04.ProofsConn.search_hyd_eq. simpl fst. symmetry. apply PP.C04.ProofsConn.hnc_iff_hreach.
+  intros b Hb. unfold bs in Hb. apply in_map_iff in Hb. destruct Hb as [e [<- He]]. destruct (H3 e He). simpl. auto.
+Qed.
+Print Assumptions graph_components_eq_islands.
+
+(* unsupplied_junctions = nodes not reachable from a junction of the slack set *)
 Theorem unsupplied_is_unreachable_from_ext_grids : forall a n x,
   stable (edges a n) (reach a n (slacks_code n)) = true ->
   (In x (unsupplied a n) <->
